@@ -8,7 +8,8 @@ Transliteration of
 * `transport/proto_hdr.rs`  `ProtoHdr::{encode, decrypt_and_decode}`, `get_iv` (nonce), AAD = parsed header bytes,
 * `transport/packet.rs`     `PacketHdr::{encode, decode_remaining}`,
 * `transport/session.rs`    `Session::{is_for_rx, pre_send (no exchange), decode_remaining, encode, post_recv, add_exch}`,
-  `Sessions::{get_for_rx, add}`, the no-key-material branch of `get_or_create_for_group_rx`,
+  `Sessions::{get_for_rx, add, remove, get_session_for_eviction, get_or_create_for_group_rx}`
+  (the whole key-derivation loop, see below),
 * `transport/mrp.rs`        `ReliableMessage::post_recv`,
 * `transport.rs`            `decode_packet` (plain header → session lookup → decrypt → protocol header → `post_recv`).
 
@@ -825,11 +826,26 @@ def handleRx (E : Env) (now exchId : Nat) (w : World) (from_ : Addr) (dg : Bytes
 
 /-! ## Specification vocabulary (written from the property text) -/
 
-/-- `dg` is authentic for the receiving session `r`: it is, bit for bit, the wire form of an
-encryption made under `r`'s receive key, for the nonce built from the header's security flags and
-counter and the peer node id `r` was established with, with the complete header as associated data. -/
+/-- field ranges of a header that came off the wire / may go onto it (what `PlainHdr::decode`
+accepts and `PlainHdr::encode` writes without truncation) -/
+structure PlainHdr.WF (h : PlainHdr) : Prop where
+  flags : fromBits MSGFLAGS_ALL h.flags = true
+  sessId : h.sessId < 256 ^ 2
+  secFlags : fromBits SECFLAGS_ALL h.secFlags = true
+  ctr : h.ctr < 256 ^ 4
+  /-- a u64 when present, 0 when absent -/
+  src : h.src < 256 ^ srcLen h.flags
+  /-- u64 / u16 / 0 according to the DSIZ bits -/
+  dst : h.dst < 256 ^ dstLen h.flags
+
+/-- `dg` is authentic for the receiving session `r` — **the ideal-AEAD notion of authenticity**: it
+is, bit for bit, the wire form `aad ‖ ct` of an encryption that was *really made* (an entry of the
+table `t`) under `r`'s receive key, for the nonce built from the header's security flags and counter
+and the peer node id `r` was established with, with the complete (well-formed) header as associated
+data. No computational claim is made: that nothing but a recorded encryption decrypts is the
+ideal-AEAD assumption (`Aead.dec`). -/
 def AuthenticFor (t : Aead) (r : Session) (dg : Bytes) : Prop :=
-  ∃ rec ∈ t, ∃ h : PlainHdr,
+  ∃ rec ∈ t, ∃ h : PlainHdr, h.WF ∧
     rec.key = r.decKey ∧ rec.aad = h.encode ∧ dg = rec.aad ++ rec.ct ∧
     rec.nonce = nonce h.secFlags h.ctr (r.peerNode.getD 0)
 
@@ -854,7 +870,7 @@ def GroupKeyFor (fabs : List FabricM) (h : PlainHdr) (f : FabricM) (gid key : Na
 under `key` with the complete header as associated data and the *source node id of the header* in
 the nonce -/
 def GroupAuthentic (t : Aead) (key : Nat) (dg : Bytes) (h : PlainHdr) (src : Nat) : Prop :=
-  h.srcNode = some src ∧ h.isGroup = true ∧
+  h.WF ∧ h.srcNode = some src ∧ h.isGroup = true ∧
   ∃ rec ∈ t, rec.key = key ∧ rec.aad = h.encode ∧ dg = rec.aad ++ rec.ct ∧
     rec.nonce = nonce h.secFlags h.ctr src
 
